@@ -13,7 +13,7 @@ func genStore(r *core.Rng, p *core.Plan, tier string) *core.Plan {
 	if tier == "thorough" {
 		n = r.Range(10, 90)
 	}
-	kinds := []string{"transfer", "transfer", "wd0", "wd1", "wd2", "retdep", "proposal", "review", "review0"}
+	kinds := []string{"transfer", "transfer", "wd0", "wd1", "wd2", "retdep", "proposal", "review", "review0", "zeroout"}
 	depth := 0
 	for i := 0; i < n; i++ {
 		switch {
